@@ -221,6 +221,11 @@ func (u *Unit) callMods(c *ssa.CallCommon, m *modSet, seen map[*ssa.Function]boo
 	}
 	// dynamic call of a captured closure variable: resolved at execution time; conservatively everything
 	m.all = true
+	for g := range u.eng.GlobalGhosts {
+		if g != "$held" {
+			m.ghosts[g] = true
+		}
+	}
 	m.excepts = append(m.excepts, nil)
 	m.exceptPkg = append(m.exceptPkg, "")
 	m.allCells = false
